@@ -20,6 +20,21 @@ CLAIMED = {
    note='Trusted: Lean kernel + standard axioms; hand-written model of orswot.rs (BTreeMap/HashMap as finite maps) tied by the correspondence run; stamps valid and after the first 4 ms of 2023; FORGIVENESS_PERIOD of a non-test build.',
    technique='Lean 4 proof (step refinement to an LWW join-semilattice + induction over operation lists) + model/implementation correspondence check',
    ref='§8 C04'),
+ 'C03': dict(
+   text='Lean 4 theorems about the executable model of OrSWotSet::merge (time-sorted log loop, left-over loop, NodeVersions::merge): per-key characterisation of merge (merge_get), merge = per-key maximum of the two records under soundness (merge_view), and the representation theorem merge_rep: the merged state is the LWW state of the union of what both replicas had applied. From it, for all states reachable by insert/delete/merge over any history under either alternative of the precondition (per-origin window, or gap-free prefixes): commutativity, associativity, idempotence, any order/repetition of merges, indistinguishability of replicas that applied the same operations. Witness that the precondition is needed. Tied to the code by differential execution of merge scripts with the Lean LWW-of-union function as oracle.',
+   note='Trusted: Lean kernel + standard axioms; hand-written model of merge (HashMap iteration order irrelevant by the key-local fold lemma; sort_by_key as stable insertion sort) tied by the correspondence run; purge excluded as in the property; valid stamps.',
+   technique='Lean 4 proof (refinement of merge to LWW over the union of applied operations; induction over reachable states) + model/implementation correspondence check',
+   ref='§8 C03'),
+ 'C05': dict(
+   text='Lean 4 theorems: diff_exact (no hypotheses, any two states: the two lists are exactly the peer records the replica lacks, by the literal definition of the property), no key listed twice, modifications and removals disjoint, the LWW reading of "lacks", and applying a listed modification closes it. The second sentence (one exchange repairs, any split/interleaving of the batches) is decided by the differential run with the Lean model and the LWW oracle over window and gap-free constructions; its theorem (apply_diff_closes) is stated in DESIGN.md and not yet proved - see level_note.',
+   note='PARTIAL at proof level: diff_exact and the per-item closure are proved; the whole-exchange closure and convergence are validated by exhaustive/ random differential runs (all batch orders, 64 seeded interleavings) but not yet a theorem. Trusted: Lean kernel + standard axioms; model tied by the correspondence run; the difference is applied on a source that direct replication does not advance (as the store does).',
+   technique='Lean 4 proof (diff characterisation) + model/implementation correspondence check with LWW oracle',
+   ref='§8 C05'),
+ 'C08': dict(
+   text='Lean 4 theorems: purge_local (purge changes no live entry and no version vector; returns exactly the tombstones older than the safe cut-off of their origin; keeps exactly the others), purged_stays_refused (any operation of the deleting node not newer than a purged delete is refused by will_apply/insert/delete in the purging state and every later state whose cut-offs have not decreased). The cluster statement (timely histories with purges converge to the never-purging result) is evaluated on the implementation by the differential run against the Lean LWW oracle, printed only when the arrival order is timely; its theorem is not yet proved - see level_note.',
+   note='PARTIAL at proof level: local facts proved for all states; cluster statement validated differentially (timely constructions with purges at arbitrary points, 1-3 replicas, both sources). Trusted: Lean kernel + standard axioms; model tied by the correspondence run.',
+   technique='Lean 4 proof (purge characterisation, refusal after purge) + model/implementation correspondence check with LWW oracle',
+   ref='§8 C08'),
 }
 NA_REASON = 'check not built yet (work in progress; see DESIGN.md section 8)'
 
